@@ -10,7 +10,9 @@ PID = "C06"
 RULE = ("Two Hypothesis searches. roundtrip: lists of 0-6 files (names 0-12 printable non-space ASCII in both cases, "
         "types 0-3, data types 00/FF, any 16-bit addresses, data lengths from the 255-multiple grid / uniform 0-4096 "
         "/ up to 65535, content with block markers 55 3C 00/01/FF) are written with CassetteFile.add_files, the "
-        "bytes re-opened with CassetteFile(buffer=...).list_files() and compared field by field with the input. "
+        "bytes re-opened with CassetteFile(buffer=...).list_files() and compared field by field with the input; the "
+        "writing object itself is then rebuilt file by file and listed after every addition (and twice at the end), "
+        "each listing compared with the files added so far, the final image with the add_files image. "
         "foreign: the same file lists are written by an independent variant writer (leader lengths 1-400, zero gaps "
         "0-300, gap-flagged files with leaders between data blocks, data blocks of arbitrary sizes 1-255, trailing "
         "leader) and listed by the tool. Enumerated: single file of every length 0..1100 (quick) / 0..4000 "
@@ -152,6 +154,25 @@ def execute(case):
         return viol("{} raised {}: {}".format(case["mode"], type(err).__name__, err),
                     fid="C06:raise:" + type(err).__name__, labels=labels)
     bad = listing_mismatch(listed, files, datas)
+    if bad is None and case["mode"] == "roundtrip" and all(len(d) for d in datas):
+        # "listing that image": the object that was written must list the same files as a fresh object over its
+        # bytes - after every single addition, and when listed twice
+        try:
+            tape = CassetteFile()
+            for n, (f, d) in enumerate(zip(files, datas)):
+                tape.add_file(filegen.to_coco(f, d))
+                for again in (0, 1) if n == len(files) - 1 else (0,):
+                    bad = listing_mismatch(tape.list_files(), files[:n + 1], datas[:n + 1])
+                    if bad is not None:
+                        return viol("the written object, listed after addition {}{}: {}".format(
+                            n + 1, " (second listing)" if again else "", bad[1]), fid="C06:same-object", labels=sorted(set(labels)))
+            if list(tape.get_buffer()) != image:
+                return viol("adding the files one by one gives a different image than adding the list",
+                            fid="C06:incremental-image", labels=sorted(set(labels)))
+        except Exception as err:
+            return viol("listing the written object raised {}: {}".format(type(err).__name__, err),
+                        fid="C06:raise-same-object:" + type(err).__name__, labels=sorted(set(labels)))
+        labels.append("same_object")
     if bad is None:
         return ok(labels=sorted(set(labels)), nontrivial=nontrivial)
     idx, text = bad
